@@ -18,7 +18,7 @@ EXPLANATION = (
 ASSUMPTIONS = ["matplotlib draws the arrays it is given", "fss, auto*, timeseries, meteo, against, maps, rank, impact geometry and everything read back "
                "from rendered artists are UNCOVERED"]
 AUDIT = {"classes": ["verif.output.Roc", "verif.output.DRoc", "verif.output.Performance", "verif.output.Taylor", "verif.output.Error", "verif.output.QQ",
-                     "verif.output.ObsFcst", "verif.output.Reliability", "verif.output.Discrimination"],
+                     "verif.output.ObsFcst", "verif.output.Reliability", "verif.output.Discrimination", "verif.output.Murphy"],
          "functions": ["verif.util.bin"]}
 
 
